@@ -54,7 +54,7 @@ var accessors = []interface{}{
 	hscosmos.GetEpochSwitchInfo, hsokex.GetEpochSwitchInfo,
 	hsont.GetCrossChainMsg, hsont.GetHeaderByHeight, hsont.GetHeaderByHash, hsont.GetKeyHeights,
 	hszil.IsHeaderExist, hszil.GetTxHeaderByHash, hszil.GetCurrentTxHeader, hszil.GetCurrentTxHeaderHeight, hszil.GetDsHeaderByHash,
-	scom.CheckDoneTx,
+	scom.CheckDoneTx, scom.CheckIfChainBlacked,
 	hszill.IsHeaderExist, hszill.GetTxHeaderByHash, hszill.GetCurrentTxHeader, hszill.GetCurrentTxHeaderHeight, hszill.GetDsHeaderByHash,
 }
 
@@ -69,11 +69,11 @@ func valuesFor(t reflect.Type) ([]reflect.Value, bool) {
 	var out []reflect.Value
 	switch {
 	case t.Kind() == reflect.Uint64:
-		for _, v := range []uint64{2, 3, 0x0102030405060708, 2 << 32} {
+		for _, v := range []uint64{2, 3, 0x0102030405060708, 2 << 32, 2 + 1<<32, 2 + 1<<56, 2 + 1<<16} {
 			out = append(out, reflect.ValueOf(v).Convert(t))
 		}
 	case t.Kind() == reflect.Uint32:
-		for _, v := range []uint32{7, 9, 0x01020304, 7 << 16} {
+		for _, v := range []uint32{7, 9, 0x01020304, 7 << 16, 7 + 1<<16, 7 + 1<<24, 7 + 1<<8} {
 			out = append(out, reflect.ValueOf(v).Convert(t))
 		}
 	case t.Kind() == reflect.String:
